@@ -103,6 +103,10 @@ type FieldSpec struct {
 	Doc         string
 	Default     ConstantValue
 	Annotations Annotations
+
+	// linkingDefault is true while the default value is being linked. It is
+	// used to detect default values defined in terms of themselves.
+	linkingDefault bool
 }
 
 // compileField compiles the given Field source into a FieldSpec.
@@ -167,7 +171,9 @@ func (f *FieldSpec) Link(scope Scope) (err error) {
 		return err
 	}
 	if f.Default != nil {
+		f.linkingDefault = true
 		f.Default, err = f.Default.Link(scope, f.Type)
+		f.linkingDefault = false
 	}
 	return err
 }
